@@ -19,7 +19,7 @@ TB_REGISTRY = [
     'messages on the wire are not part of the state model (ConnectionState::send has a precondition only): which reply '
     'variant is sent is NOT decided; decided is what the tables and the deferred-work queues (State) hold afterwards',
     'ProtocolVersion constants and ordering are modelled in the prelude (lexicographic (major, minor)); cfg(feature = '
-    '"statistics"/"introspection") code is dropped by the extraction',
+    '"introspection") code is dropped by the extraction, cfg(feature = "statistics") code is kept where the unit says so',
 ]
 TB_KANI = [
     'Kani 0.68 + CBMC 6.11 + CaDiCaL (bit-precise symbolic execution of the compiled MIR)',
@@ -94,15 +94,17 @@ PROPS = {
             'and routing units for the registry part; for channels and bus listeners the strong form (owners connected) is NOT '
             'yet a postcondition of the channel / bus-listener handler units (create_channel, claim_channel_end, '
             'create_bus_listener are not verified)',
-            'statistics counters: cfg(feature = "statistics") code is dropped by the extraction; not decided',
+            'statistics counters: the registry, subscription, channel, bus-listener and teardown units are verified with the '
+            'cfg(feature = "statistics") code KEPT (only the attribute is dropped); the counters saturate, equality with the table '
+            'sizes is claimed below usize::MAX entries; num_connections on connect (handle_event) is not verified',
         ],
         undecided_clauses=[
             'how a connection ends (clean shutdown, transport error, forced, task dropped): conn.rs is async code; decided is what '
             'Broker::shutdown_connection does once the broker loop learns of it',
             'every affected peer is notified once: notifications on the wire are not in the state model; decided for the queued '
             'ones (ServiceDestroyed / InvalidService / unsubscribe / abort entries of the loop state)',
-            'published statistics counters; broker shutdown message to every connection; idle-shutdown request completes '
-            '(Broker::run, handle_event: async / closures)',
+            'messages_sent / messages_received and take(); broker shutdown message to every connection; idle-shutdown request '
+            'completes (Broker::run, handle_event: async / closures)',
         ],
         explanation='Broker::shutdown_connection on its verbatim text (eight loops over the removed connection\'s lists, loop '
                     'invariants spliced in place): afterwards the connection is gone and NOTHING refers to it any more - no bus '
@@ -110,7 +112,9 @@ PROPS = {
                     'subscription and no channel end - the tables satisfy the strong invariant again (every owner and subscriber '
                     'is a connected client), and exactly one abort is queued for every call the connection had pending. Lemma: '
                     'under that invariant a broker without connections holds no objects, services, calls, channels or listeners '
-                    '(the debug_assert!s at the end of Broker::run).',
+                    '(the debug_assert!s at the end of Broker::run). Statistics: every handler that inserts into / removes from the object, '
+                    'service, channel or listener table keeps its counter equal to the table size, shutdown_connection re-establishes all '
+                    'five counters.',
     ),
     'C03': dict(
         level='proof',
